@@ -4,7 +4,7 @@ import H2V.Model.ConnRecv
   `Inner` (`recv_headers`, `recv_data`, `recv_reset`, `recv_window_update`, `handle_error`,
   `recv_go_away`, `recv_eof`, `send_reset`), `poll_complete`/`buffer_pending`, `send_request`,
   `poll_pending_open`, the handle methods of `StreamRef`/`OpaqueStreamRef` and `drop_stream_ref`.
-  PUSH_PROMISE (`recv_push_promise`, `poll_pushed`, `send_push_promise`) is not modelled.
+  `poll_pushed` is not modelled (the harness has no op for it).
 -/
 namespace H2V.Model.Conn
 open H2V H2V.Model
@@ -197,6 +197,63 @@ def recvWindowUpdate (s : Streams) (id : Nat) (inc : Nat) : Streams × Except PE
       | .error r => (s, .error (PErr.libraryGoAway r))
       | .ok _ => (s, .ok ())
 
+/-- `Inner::recv_push_promise(send_buffer, frame)`; `h` is the promised request (`h.sid` = promised id) -/
+def recvPushPromise (s : Streams) (id : Nat) (h : HeadersIn) : Streams × Except PErr Unit :=
+  let promisedId := h.sid
+  -- the initiating stream must exist and be receive-open
+  let parent : Streams × Except PErr (Option Nat) :=
+    match s.store.findKey? id with
+    | some k =>
+      if id > s.recv.maxStreamId then (s, .ok none)
+      else if (s.stream k).state.isLocalError then
+        -- we reset the initiating stream, the peer may not know yet: the promised stream is reserved
+        -- all the same and refused (instead of dropping the frame)
+        match s.ensureCanReserve with
+        | .error e => (s, .error e)
+        | .ok _ =>
+          match s.recvOpen promisedId true with
+          | (s, .error e) => (s, .error e)
+          | (s, .ok true) => (s, .error (PErr.libraryReset promisedId REFUSED_STREAM))
+          | (s, .ok false) => (s, .ok none)
+      else match (s.stream k).state.ensureRecvOpen with
+        | .error e => (s, .error e)                              -- NOTE the stream's own error travels up
+        | .ok false => (s, .error (PErr.libraryGoAway PROTOCOL_ERROR))
+        | .ok true => (s, .ok (some k))
+    | none => (s, .error (PErr.libraryGoAway PROTOCOL_ERROR))
+  match parent with
+  | (s, .error e) => (s, .error e)
+  | (s, .ok none) => (s, .ok ())
+  | (s, .ok (some parentKey)) =>
+    match s.ensureCanReserve with
+    | .error e => (s, .error e)
+    | .ok _ =>
+      match s.recvOpen promisedId true with
+      | (s, .error e) => (s, .error e)
+      | (s, .ok false) => (s, .ok ())
+      | (s, .ok true) =>
+        let s := if s.store.contains promisedId then s.panic "assertion failed: self.ids.insert(id, index).is_none()" else s
+        let (store, child) := s.store.insert (Stream.new promisedId s.actions.send.initWindowSz s.recv.initWindowSz)
+        let s := { s with store := store }
+        let (s, res) : Streams × Except PErr Bool :=        -- `Ok(Some(key))` = true
+          s.transition child fun s =>
+            match s.recvRecvPushPromise child h with
+            | (s, .ok) => (s, .ok true)
+            | (s, .unsupported) => (s.unsup "promised request URI outside the modelled subset", .ok false)
+            | (s, .err e) =>
+              match s.resetOnRecvStreamErr child (.error e) with
+              | (s, .ok _) => (s, .ok false)
+              | (s, .error e) => (s, .error e)
+        match res with
+        | .error e => (s, .error e)
+        | .ok false => (s, .ok ())
+        | .ok true =>
+          -- `ppp.push(child)` (a `Queue<NextAccept>`), `parent.notify_push()`
+          let s :=
+            if (s.stream child).isPendingAccept then s
+            else (s.modStream child fun st => { st with isPendingAccept := true }).modStream parentKey
+                   fun st => { st with pendingPushPromises := st.pendingPushPromises ++ [child] }
+          (s.modStreamW parentKey Stream.notifyPush, .ok ())
+
 /-- `Inner::handle_error(send_buffer, err)`: returns `last_processed_id` -/
 def handleError (s : Streams) (err : PErr) : Streams × Nat :=
   let lastProcessedId := s.recv.lastProcessedId
@@ -306,7 +363,7 @@ def maybeCancel (s : Streams) (id : Nat) : Streams :=
     (s.scheduleImplicitReset id reason).enqueueResetExpiration id
   else s
 
-/-- `drop_stream_ref(inner, key)` (the pending push promises of a client stream are not modelled) -/
+/-- `drop_stream_ref(inner, key)` -/
 def dropStreamRef (s : Streams) (id : Nat) : Streams :=
   let s := { s with refs := s.refs - 1 }
   let s := if (s.stream id).refCount > 0 then s else s.panic "assertion failed: self.ref_count > 0"
@@ -315,8 +372,16 @@ def dropStreamRef (s : Streams) (id : Nat) : Streams :=
   let s := if st.refCount == 0 && st.isClosed then s.notifyTask else s
   (s.transition id fun s =>
     let s := s.maybeCancel id
-    let s := if (s.stream id).refCount == 0 then s.releaseClosedCapacity id else s
-    (s, ())).1
+    if (s.stream id).refCount == 0 then
+      let s := s.releaseClosedCapacity id
+      -- "we won't be able to reach our push promises anymore"
+      let ppp := (s.stream id).pendingPushPromises
+      let s := s.modStream id fun st => { st with pendingPushPromises := [] }
+      let s := ppp.foldl (fun s promise =>
+        let s := s.modStream promise fun st => { st with isPendingAccept := false }
+        (s.transition promise fun s => (s.maybeCancel promise, ())).1) s
+      (s, ())
+    else (s, ())).1
 
 /-- `Streams::send_request(request, end_of_stream, pending)`: `Ok((key of the new stream, is_full))` -/
 def sendRequest (s : Streams) (isHead : Bool) (fields : List Hpack.Field) (eos : Bool) (pending : Option Nat) :
